@@ -301,7 +301,7 @@ struct StreamSim : Sim {
                 else if (focus == "C14")
                         bias = K_GCM;
                 p.cfg["clients"] = nc;
-                bool huge_run = (focus == "C09" && (thorough ? run_index % 20000 < 3 : run_index < 3)) ||
+                bool huge_run = (focus == "C09" && (thorough ? run_index % 20000 < 9 : run_index < 6)) ||
                                 (focus == "C05" && (thorough ? run_index % 20000 < 10 : run_index < 10)) ||
                                 (focus == "C10" && (thorough ? run_index % 20000 < 10 : run_index < 5));
                 for (int i = 0; i < nc; i++) {
@@ -370,6 +370,13 @@ struct StreamSim : Sim {
                                 p.cfg["c0_fam"] = (int64_t) (run_index % 3);
                                 p.cfg["c0_w"] = 1 + (int64_t) g.below(48);
                                 p.cfg["c0_twin"] = 0;
+                                // length class of the single run call: 0 = 2^31 + x, 1 = 2^32 - 1 (the largest max_len), 2 = 2^32 - 2, 3 = 2^32 - 1 - x
+                                {
+                                        uint64_t hi = run_index % 20000;
+                                        p.cfg["c0_hugecls"] = hi < 3 ? 0 : hi < 6 ? 1 : 1 + (int64_t) g.below(3);
+                                        if (hi >= 3 && hi < 6)
+                                                p.cfg["c0_w"] = 1 + 2 * (int64_t) g.below(24) + (int64_t) (g.chance(1, 4) ? 1 : 0); // mostly odd windows
+                                }
                         } else if (focus == "C10") {
                                 p.cfg["c0_kind"] = K_MUR;
                                 p.cfg["c0_fam"] = (int64_t) (run_index % 5);
@@ -626,7 +633,14 @@ struct StreamSim : Sim {
                 if (c.huge) {
                         build_hwin();
                         // a single run over >= 2^31 bytes of the periodic window; mask/trigger chosen hit-free over a period
-                        n = (1ull << 31) + (o.c % 4096);
+                        switch ((int) s.p->get(strfmt("c%d_hugecls", ci).c_str())) {
+                        case 1: n = 0xffffffffull; break;
+                        case 2: n = 0xfffffffeull; break;
+                        case 3: n = 0xffffffffull - (uint64_t) (o.c % 4096); break;
+                        default: n = (1ull << 31) + (o.c % 4096); break;
+                        }
+                        if (n > 0xf0000000ull)
+                                s.r->cov.hit("probe_rolling_max_len_near_2^32");
                         src = g_hwin + c.pos; // c.pos holds the phase chosen by the plan
                         rem = n;
                         s.r->cov.hit("probe_rolling_max_len_ge_2^31");
